@@ -67,6 +67,15 @@ func c20TailPrograms(depth int) []string {
 		}
 	}
 	rec(depth, c20Step)
+	// the same definitions called from frames that have their own pending fork
+	base := append([]string{}, out...)
+	for _, caller := range []string{"(0, 0) | f", "[0, 0][] | f", "range(2) | f", "(0 | f), 7", "[0 | f]"} {
+		for _, p := range base {
+			if strings.HasSuffix(p, "; 0 | f") {
+				out = append(out, strings.TrimSuffix(p, "0 | f")+caller)
+			}
+		}
+	}
 	// the recursive step itself wrapped: contexts around the inner call
 	for _, ctx := range c20TailContexts {
 		out = append(out, "def f: if . < N then . + 1 | "+fmt.Sprintf(ctx, "f")+" else . end; 0 | f")
